@@ -1976,7 +1976,17 @@ impl<'input, T: Input> Scanner<'input, T> {
 
             match self.input.look_ch() {
                 '\'' if single => break,
-                '"' if !single => break,
+                '"' if !single => {
+                    // A closing quote right after an escaped line break starts a continuation
+                    // line, which obeys the same indentation rule as any other.
+                    if leading_blanks && (self.mark.col as isize) < self.indent {
+                        return Err(ScanError::new_str(
+                            start_mark,
+                            "invalid indentation in quoted scalar",
+                        ));
+                    }
+                    break;
+                }
                 _ => {}
             }
 
